@@ -1,6 +1,100 @@
-(* Runner for property C12: wire arguments -> model -> wire result. Filled in by the C12 model. *)
+(* Runner for property C12: wire arguments -> Rates/Lookup.v over Gen/Regimes.v -> wire result.
+   Same operations as harness/c12.go; <mode> 1 = model after the repair of defect #1, 0 = as shipped. *)
 From Coq Require Import ZArith List String Bool.
-From Verif Require Import Base.Wire.
+From Verif Require Import Base.Wire Defs.DefTypes Rates.Date Rates.Lookup Gen.Regimes.
 Import ListNotations.
+Open Scope Z_scope.
 
-Definition run_c12 (args : list V) : list V := [verr "not-implemented"].
+Definition c12_date (v : V) : date :=
+  match v with VL [VI y; VI m; VI d] => mkDate y m d | _ => mkDate 0 0 0 end.
+Definition c12_tags (v : V) : list str := map vs_ (vl v).
+Definition c12_ext (v : V) : kvs :=
+  map (fun p => match p with VL [VS k; VS c] => (k, c) | _ => ([], []) end) (vl v).
+Definition c12_pct (v : V) : pct := match v with VL [VI x; VI e] => mkPct x e | _ => mkPct 0 0 end.
+Definition c12_optpct (v : V) : option pct := match v with VL [VI x; VI e] => Some (mkPct x e) | _ => None end.
+Definition c12_vpct (p : pct) : V := VL [VI (p_val p); VI (p_exp p)].
+Definition c12_voptpct (p : option pct) : V := match p with Some x => c12_vpct x | None => VL [] end.
+Definition c12_vext (e : kvs) : V := VL (map (fun kv => VL [VS (fst kv); VS (snd kv)]) e).
+
+Definition c12_row (v : V) : ratevalue :=
+  match v with
+  | VL [s; p; su; t; e] =>
+    mkValue (match s with VL [VI y; VI m; VI d] => Some (mkDate y m d) | _ => None end)
+            (c12_pct p) (c12_optpct su) (c12_tags t) (c12_ext e) false
+  | _ => mkValue None (mkPct 0 0) None [] [] false
+  end.
+
+Definition c12_test (mode : V) : date -> ratevalue -> bool :=
+  if vz mode =? 0 then in_force_shipped else in_force.
+
+Definition c12_found (r : option (Z * ratevalue)) : list V :=
+  match r with
+  | None => [VL [VI 0]]
+  | Some (i, rv) => [VL [VI 1; VI i; c12_vpct (rv_percent rv); c12_voptpct (rv_surcharge rv)]]
+  end.
+
+Definition c12_err (e : tax_error) : list V :=
+  match e with
+  | ErrInvalidCategory => [verr "invalid-category"]
+  | ErrInvalidRate => [verr "invalid-rate"]
+  | ErrInvalidDate => [verr "invalid-date"]
+  end.
+
+Definition c12_sentinel_pct : pct := mkPct 12345 4.
+Definition c12_sentinel_sur : pct := mkPct 678 3.
+
+Definition run_c12 (args : list V) : list V :=
+  match args with
+  | o :: rest =>
+    let op := opname o in
+    let a n := nth n rest (VI 0) in
+    if String.eqb op "lookup" then
+      match regime_for in_code_regimes (vs_ (a 1%nat)) with
+      | None => [verr "noregime"]
+      | Some r =>
+        match category_def r (vs_ (a 2%nat)) with
+        | None => [verr "nocat"]
+        | Some c =>
+          match rate_def c (vs_ (a 3%nat)) with
+          | None => [verr "norate"]
+          | Some rd => c12_found (value_index_with (c12_test (a 0%nat)) (c12_date (a 4%nat)) (c12_tags (a 5%nat))
+                                                   (c12_ext (a 6%nat)) (rt_values rd) 0)
+          end
+        end
+      end
+    else if String.eqb op "value" then
+      c12_found (value_index_with (c12_test (a 0%nat)) (c12_date (a 2%nat)) (c12_tags (a 3%nat)) (c12_ext (a 4%nat))
+                                  (map c12_row (vl (a 1%nat))) 0)
+    else if String.eqb op "prepare" then
+      match regime_for in_code_regimes (vs_ (a 1%nat)) with
+      | None => [verr "noregime"]
+      | Some r =>
+        match calculate_for_regime_with (c12_test (a 0%nat)) r (vs_ (a 2%nat)) (c12_tags (a 5%nat)) (c12_date (a 4%nat))
+                (mkCombo (vs_ (a 3%nat)) (Some c12_sentinel_pct) (Some c12_sentinel_sur) (c12_ext (a 6%nat)) false) with
+        | inl e => c12_err e
+        | inr (ret, c) => [VL [VS (bs "ok"); VB ret; c12_voptpct (cb_percent c); c12_voptpct (cb_surcharge c); c12_vext (cb_ext c)]]
+        end
+      end
+    else if String.eqb op "invoice" then
+      match regime_for in_code_regimes (vs_ (a 2%nat)) with
+      | None => [verr "noregime"]
+      | Some r =>
+        match calculate_for_regime_with (c12_test (a 0%nat)) r (vs_ (a 3%nat)) (c12_tags (a 6%nat)) (c12_date (a 5%nat))
+                (mkCombo (vs_ (a 4%nat)) (Some c12_sentinel_pct) (Some c12_sentinel_sur) (c12_ext (a 7%nat)) false) with
+        | inl e => c12_err e
+        | inr (ret, c) => [VL [VS (bs "ok"); c12_voptpct (cb_percent c); c12_voptpct (cb_surcharge c); c12_vext (cb_ext c); VS (cb_rate c)]]
+        end
+      end
+    else if String.eqb op "date" then
+      let x := c12_date (a 0%nat) in
+      let y := c12_date (a 1%nat) in
+      [VL [VB (date_valid x); VB (date_valid y); VB (date_before x y)]]
+    else if String.eqb op "checkorder" then
+      match check_order (map c12_row (vl (a 0%nat))) None with
+      | Some true => [VL [VS (bs "ok")]]
+      | Some false => [verr "order"]
+      | None => [verr "panic"]
+      end
+    else [verr "unknown-c12-op"]
+  | [] => [verr "unknown-c12-op"]
+  end.
